@@ -14,6 +14,15 @@ class ExtractError(Exception):
     a violation."""
 
 
+class GuardEscape(ExtractError):
+    """An adjacency guard (RefCell borrow / RwLock guard) is created in a function that hands it out
+    (an iterator constructor): its live range is not bounded by the function, so it overlaps whatever
+    runs while the iterator is alive, user code included (R4b)."""
+    def __init__(self, fid, msg):
+        super().__init__(msg)
+        self.fid = fid
+
+
 def mask(src: str, comments_only: bool = False) -> str:
     """Return a string of the same length where the *contents* of comments,
     string literals and char literals are replaced by spaces (newlines kept).
